@@ -2551,13 +2551,16 @@ void add_predefines () {
     {
       char namebuf[NSIZE];
       char mtext[MLEN];
+      const char *eq = strchr (tmpf->expression, '=');
 
+      /* the option is as long as the command line makes it: test before copying */
+      if ((eq ? (size_t) (eq - tmpf->expression) : strlen (tmpf->expression)) >= NSIZE)
+        fatal ("NSIZE exceeded");
+      if (eq && strlen (eq + 1) >= MLEN)
+        fatal ("MLEN exceeded");
+      *namebuf = '\0';
       *mtext = '\0';
       sscanf (tmpf->expression, "%[^=]=%[ -~=]", namebuf, mtext);
-      if (strlen (namebuf) >= NSIZE)
-        fatal ("NSIZE exceeded");
-      if (strlen (mtext) >= MLEN)
-        fatal ("MLEN exceeded");
       add_predefine (namebuf, -1, mtext);
     }
 }
